@@ -28,6 +28,8 @@ func main() {
 		roots()
 	case "funcs":
 		funcs(os.Args[2:])
+	case "effects":
+		effects()
 	default:
 		fmt.Fprintln(os.Stderr, "unknown command", os.Args[1])
 		os.Exit(2)
@@ -148,5 +150,36 @@ func dump(args []string) {
 			}
 			fmt.Printf("exit b%d %s kind=%d facts: %s\n", e.Instr.Block().Index, P.Pos(P.InstrPos(e.Instr)), e.Kind, strings.Join(fs, " ; "))
 		}
+	}
+}
+
+func effects() {
+	P := mustLoad()
+	r := P.FindRoots()
+	reach := P.Reach(r.All())
+	cnt := map[string]int{}
+	for _, fn := range P.Funcs {
+		if !reach[fn] {
+			continue
+		}
+		for _, c := range core.Calls(fn) {
+			cc := c.Common()
+			if sc := cc.StaticCallee(); sc != nil && core.InModule(sc) {
+				continue
+			}
+			if cc.IsInvoke() && len(P.Callees(c)) > 0 {
+				continue
+			}
+			e := P.EffectOf(c)
+			cnt[fmt.Sprintf("%-14s %s", e, P.CalleeKey(cc))]++
+		}
+	}
+	var ks []string
+	for k := range cnt {
+		ks = append(ks, k)
+	}
+	sort.Strings(ks)
+	for _, k := range ks {
+		fmt.Printf("%4d %s\n", cnt[k], k)
 	}
 }
